@@ -164,6 +164,31 @@ def fuzz(out, s, g, tier, seed):
     return len(done[-1]["outcomes"])
 
 
+def trace(out, s, prop, tier, seed):
+    """(T) seeded random request streams (layouts far outside the bounded alphabets) validated by Trace_Server"""
+    wd = vf.workdir("Server_trace")
+    tf = os.path.join(wd, "trace_%s.ndjson" % prop)
+    sessions, steps = (60, 60) if tier == "quick" else (1500, 100)
+    vf.run_harness(s.crate, s.test, {"mode": "record", "cfg": {"Cutoff": CUTOFF}, "seed": seed, "sessions": sessions, "steps": steps, "output": tf}, timeout=3000)
+    events = sum(1 for _ in open(tf))
+    mism, done = [], []
+
+    def sink(tag, obj):
+        (mism if tag == "MISMATCH" else done).append(obj)
+    res = vf.run_tlc("Trace_Server", "Trace_Server.cfg", workers=1, timeout=3000, env={"TRACE": tf}, tags=("MISMATCH", "DONE"),
+                     line_sink=sink, coverage=False, xmx="6g", name="Trace_Server_" + prop)
+    if res.violated:
+        raise vf.ToolError("trace spec failed: %s\n%s" % (res.violated, res.error_trace[:2000]))
+    if not done or done[-1].get("consumed") != events:
+        raise vf.ToolError("trace validation did not consume the whole trace (%s of %d events)\n%s" % (done[-1] if done else None, events, res.stdout[-1500:]))
+    out.add("traces_validated_against_impl", done[-1].get("behaviours", 0))
+    out.add("trace_events", events)
+    for m in mism:
+        rec = {"act": m["act"], "cones": m["cones"], "post": m["expected"]["st"], "out": m["expected"]["out"]}
+        s.attribute(out, prop, "trace", rec, {"fields": m["fields"], "observed": m["observed"], "panic": m.get("panic")},
+                    [{"trace": tf, "line": m["line"], "pre": m.get("pre")}], "trace")
+
+
 def udp(out, s, g, tier, seed):
     """C16 end to end: every datagram of the size slice sent to the real ServerTask over loopback UDP"""
     # the daemon receives into a 1024-byte buffer: longer datagrams never reach Server::handle whole
@@ -213,6 +238,7 @@ def run(prop, tier, seed):
         graphs[sl] = s.run_slice(out, prop, tier, seed, sl)
     if prop == "C16":
         udp(out, s, graphs["Size"], tier, seed)
+    trace(out, s, prop, tier, seed)
     if prop == "C22":
         classes = set()
         for (_, _, rec) in graphs["Mut"].edges:
@@ -227,7 +253,6 @@ def run(prop, tier, seed):
                                 "distinct_nontrivial = number of distinct (layout, mutation) classes replayed (every class changes the parse path of a well-formed layout); plus seeded "
                                 "byte-level mutations of the same layouts (%d outcome kinds observed). Oracle: no panic, exactly one statistics entry. Totality over all byte strings is not claimed." % kinds)
     else:
-        out.coverage.setdefault("traces_validated_against_impl", 0)
         out.coverage["rule"] = ("every transition of the bounded Server model (slices %s) constrained by this property is covered by a transition tour replayed on the real "
                                 "ntp_proto::Server (each datagram handled with a request-sized and an 8 KiB buffer); model-level counterexamples are confirmed on the implementation" % ",".join(slices))
     return out
@@ -239,8 +264,8 @@ _T = ("TLA+ model of the server pipeline (spec/Server.tla: policy order, parser,
       "model-checked with TLC over enumerated configurations x address classes x datagram layouts; every explored transition replayed on the real Server "
       "with real cookies/sealing and hand-decoded answers; design-level counterexamples confirmed on the implementation")
 _N = ("bounded alphabets (see MC_Server.tla): <=3 extension fields from a boundary-length set plus NTS layouts with 0..8 placeholders, 2 AEAD algorithms, 4 key-rotation ages; "
-      "conformance only on the replayed transitions; cipher treated as ideal; in-process (Server::handle), the daemon's UDP loop is not driven")
-MANIFEST = {p: dict(level="model_checking", technique=_T, note=_N, design_ref="6.5, 7 (Server group)", engine="tlc+replay", text=t) for p, t in {
+      "conformance only on the replayed transitions and recorded random streams (Trace_Server); cipher treated as ideal; in-process (Server::handle), the daemon's UDP loop is not driven")
+MANIFEST = {p: dict(level="model_checking", technique=_T, note=_N, design_ref="6.5, 7 (Server group)", engine="tlc+replay+trace", text=t) for p, t in {
     "C15": "Deny/allow order and actions, malformed / non-client / non-accepted versions never answered, require-nts, and the positive clause, for 10 address spellings (IPv4, IPv6, IPv4-mapped, mapped subnet) x 37 datagram classes x 24 [60] configurations, on the model and the real Server.",
     "C16": "Length of every answer produced with the daemon's request-sized buffer <= request length, and equal to the model's size arithmetic, for ~600 [several thousand] extension-field layouts (plain/NTS, v3/v4/v5, time/DENY/NAK); the same datagrams are also sent to the real ServerTask over loopback UDP and the reply lengths compared (end to end).",
     "C17": "Decision with a request-sized buffer = decision with an 8 KiB buffer for every layout; TLC searches the transcribed size arithmetic for layouts whose answer outgrows the request and the replay confirms them on the code.",
